@@ -1,55 +1,14 @@
-import GdVerif.Base
+import GdVerif.Lemmas.Text
 /-
   Decimal text: Rust's `to_string()` of an integer (`natDec`, `intDec`) is parsed back by Rust's
-  `str::parse` (`parseUnsigned`, `parseSigned`) to the same number, for every number in range.
-  (Shared helper, added with the GameSpy 3 family.)
+  `str::parse` (`parseUnsigned`: `Lemmas/Text.lean`; `parseSigned`: here) to the same number, for every
+  number in range; the rendering is non-empty ASCII digits.  (Shared helper, added with GameSpy 3.)
 -/
 namespace Gd
 
-def charByte (c : Char) : UInt8 := UInt8.ofNat c.toNat
-
-theorem natDec_eq (n : Nat) : natDec n = (Nat.toDigits 10 n).map charByte := by
-  simp [natDec, asciiBytes, charByte]
-
-theorem charByte_digit {c : Char} (h : c.isDigit = true) :
-    (charByte c).toNat = c.toNat ∧ 48 ≤ c.toNat ∧ c.toNat ≤ 57 := by
-  simp only [Char.isDigit, Bool.and_eq_true, decide_eq_true_eq, ge_iff_le, UInt32.le_iff_toNat_le] at h
-  have h1 : 48 ≤ c.toNat := h.1
-  have h2 : c.toNat ≤ 57 := h.2
-  refine ⟨?_, h1, h2⟩
-  simp only [charByte, UInt8.toNat_ofNat']
-  omega
-
-theorem isDigit_charByte {c : Char} (h : c.isDigit = true) : isDigit (charByte c) = true := by
-  obtain ⟨h0, h1, h2⟩ := charByte_digit h
-  simp [isDigit, inRange, h0, h1, h2]
-
-theorem digitsVal_map (l : List Char) (h : ∀ c ∈ l, c.isDigit = true) (init : Nat) :
-    (l.map charByte).foldl (fun acc b => acc * 10 + (b.toNat - 48)) init = Nat.ofDigitChars 10 l init := by
-  induction l generalizing init with
-  | nil => simp [Nat.ofDigitChars]
-  | cons c r ih =>
-    simp only [List.map_cons, List.foldl_cons, Nat.ofDigitChars_cons]
-    rw [ih (fun x hx => h x (by simp [hx]))]
-    obtain ⟨h0, _, _⟩ := charByte_digit (h c (by simp))
-    rw [h0, Nat.mul_comm]
-    rfl
-
-theorem digits_all (n : Nat) : ∀ c ∈ Nat.toDigits 10 n, c.isDigit = true :=
-  fun _ hc => Nat.isDigit_of_mem_toDigits (by decide) (by decide) hc
-
-theorem digitsVal_natDec (n : Nat) : digitsVal (natDec n) = n := by
-  rw [natDec_eq, digitsVal, digitsVal_map _ (digits_all n), Nat.ofDigitChars_ten_toDigits]
-
-theorem natDec_all_digits (n : Nat) : (natDec n).all isDigit = true := by
-  rw [natDec_eq, List.all_eq_true]
-  intro b hb
-  obtain ⟨c, hc, rfl⟩ := List.mem_map.mp hb
-  exact isDigit_charByte (digits_all n c hc)
-
-theorem natDec_ne_nil (n : Nat) : natDec n ≠ [] := by
-  rw [natDec_eq]
-  simp
+theorem natDec_all_digits (n : Nat) : (natDec n).all isDigit = true := (natDec_spec n).1
+theorem natDec_ne_nil (n : Nat) : natDec n ≠ [] := (natDec_spec n).2.1
+theorem digitsVal_natDec (n : Nat) : digitsVal (natDec n) = n := (natDec_spec n).2.2
 
 /-- the first byte of a decimal rendering is a digit -/
 theorem natDec_head (n : Nat) : ∃ d r, natDec n = d :: r ∧ isDigit d = true := by
@@ -65,17 +24,6 @@ theorem natDec_head (n : Nat) : ∃ d r, natDec n = d :: r ∧ isDigit d = true 
 theorem isDigit_ne {d : UInt8} (h : isDigit d = true) : d ≠ 43 ∧ d ≠ 45 ∧ d ≠ 0 ∧ d.toNat < 128 := by
   simp only [isDigit, inRange, Bool.and_eq_true, decide_eq_true_eq] at h
   refine ⟨?_, ?_, ?_, by omega⟩ <;> (intro hd; subst hd; simp at h)
-
-theorem parseUnsigned_cons (bits : Nat) (d : UInt8) (r : Bytes) (hd : d ≠ 43) :
-    parseUnsigned bits (d :: r) =
-      if (d :: r).isEmpty || !(d :: r).all isDigit then none
-      else if digitsVal (d :: r) < 2 ^ bits then some (digitsVal (d :: r)) else none := by
-  unfold parseUnsigned
-  split
-  · rename_i heq
-    simp only [List.cons.injEq] at heq
-    exact absurd heq.1 hd
-  · rfl
 
 theorem parseSigned_cons (bits : Nat) (d : UInt8) (r : Bytes) (h1 : d ≠ 43) (h2 : d ≠ 45) :
     parseSigned bits (d :: r) =
@@ -96,24 +44,18 @@ theorem parseSigned_minus (bits : Nat) (r : Bytes) :
   unfold parseSigned
   rfl
 
-/-- `n.to_string().parse::<uN>() == Ok(n)` for every `n` that fits -/
-theorem parseUnsigned_natDec (bits n : Nat) (h : n < 2 ^ bits) : parseUnsigned bits (natDec n) = some n := by
-  obtain ⟨d, r, hs, hd⟩ := natDec_head n
-  have hne := isDigit_ne hd
-  have hall := natDec_all_digits n
-  have hval := digitsVal_natDec n
-  rw [hs] at hall hval ⊢
-  rw [parseUnsigned_cons bits d r hne.1]
-  simp [hall, hval, h]
-
 theorem intDec_ofNat (n : Nat) : intDec (n : Int) = natDec n := by
-  show asciiBytes (toString (Int.ofNat n)) = natDec n
-  rfl
+  unfold intDec
+  have : ¬ ((n : Int) < 0) := by omega
+  simp [this]
 
 theorem intDec_negSucc (m : Nat) : intDec (Int.negSucc m) = 45 :: natDec (m + 1) := by
-  show asciiBytes (toString (Int.negSucc m)) = 45 :: natDec (m + 1)
-  show asciiBytes ("-" ++ Nat.repr (m + 1)) = _
-  simp [asciiBytes, natDec]
+  unfold intDec
+  have h1 : Int.negSucc m < 0 := Int.negSucc_lt_zero m
+  have h2 : (-Int.negSucc m).toNat = m + 1 := by
+    rw [Int.neg_negSucc]
+    rfl
+  simp [h1, h2]
 
 /-- `i.to_string().parse::<iN>() == Ok(i)` for every `i` that fits -/
 theorem parseSigned_intDec (bits : Nat) (i : Int) (hlo : -(2 ^ (bits - 1) : Int) ≤ i) (hhi : i < 2 ^ (bits - 1)) :
@@ -176,5 +118,29 @@ theorem intDec_text (i : Int) : (0 : UInt8) ∉ intDec i ∧ validUtf8 (intDec i
       rcases List.mem_cons.mp hb with rfl | hb'
       · decide
       · exact (isDigit_ne (hall b hb')).2.2.2
+
+theorem natDecAux_length (f : Nat) : ∀ (n k : Nat), n < f → 0 < k → n < 10 ^ k → (natDecAux f n).length ≤ k := by
+  induction f with
+  | zero => intro n k h; omega
+  | succ f ih =>
+    intro n k h hk hn
+    unfold natDecAux
+    split
+    · simp; omega
+    · rename_i hge
+      cases k with
+      | zero => omega
+      | succ k =>
+        cases k with
+        | zero => simp at hn; omega
+        | succ k =>
+          have := ih (n / 10) (k + 1) (by omega) (by omega) (by
+            rw [Nat.pow_succ] at hn
+            exact Nat.div_lt_of_lt_mul (by rw [Nat.mul_comm]; exact hn))
+          simp only [List.length_append, List.length_cons, List.length_nil]
+          omega
+
+theorem natDec_length (n k : Nat) (hk : 0 < k) (h : n < 10 ^ k) : (natDec n).length ≤ k :=
+  natDecAux_length (n + 1) n k (by omega) hk h
 
 end Gd
